@@ -214,7 +214,7 @@ _INV = {"only-the-copy-is-edited": "old_lists_unchanged()",
         "the-copy-keeps-its-own-new-lists":
             "not is_none(new_step.table) and is_fresh(new_step.table) and is_fresh(%(t)s.headings) and is_fresh(%(t)s.rows) and "
             "forall(lambda k: implies(0 <= k < len(%(t)s.rows), is_fresh(%(t)s.rows[k]) and is_fresh(%(t)s.rows[k].cells)))" % {"t": _T}}
-contract(M + "ScenarioOutlineBuilder.make_step_for_row", props=["C06"],
+contract(M + "ScenarioOutlineBuilder.make_step_for_row", props=["C06", "C02"],
          params={"outline_step": "ref:Step", "row": "ref:Row", "params": "any"},
          callsites={"cls.render_template": "abs:render_template"},
          modifies=[],
@@ -282,7 +282,7 @@ _BS_COMMON = {
 }
 _BS_MOD = ["list(scenarios)", "dict(params)", "*.modified", "*.index", "*.id", "*.status", "*.hook_failed", "*.duration", "*.exception",
            "*.exc_traceback", "*.error_message", "*.captured", "*._background_steps", "*._inherited_steps"]
-contract(M + "ScenarioOutlineBuilder.build_scenarios", props=["C06", "C10", "C17"],
+contract(M + "ScenarioOutlineBuilder.build_scenarios", props=["C06", "C10", "C17", "C03", "C09", "C14", "C16"],
          params={"self": "ref:ScenarioOutlineBuilder", "scenario_outline": "ref:ScenarioOutline"},
          self_classes=["ScenarioOutlineBuilder"],
          callsites={"self.make_scenario_for": "abs:make_scenario_for", "_text": "abs:_text"},
